@@ -90,6 +90,7 @@ type Config struct {
 	Votes           bool          `json:"votes"`
 	Record          bool          `json:"record"`
 	KeyPoolSize     int           `json:"key_pool"`
+	Hostile         bool          `json:"hostile"`
 
 	ConsumerUnbonding time.Duration `json:"consumer_unbonding"`
 	HandshakeDelayMax int           `json:"handshake_delay_max"`
